@@ -131,3 +131,8 @@ Definition spec_ids (am : N -> N -> bool) (L : list entry) (del : list N) (m : N
 
 (* catalogue side of DROP MEASUREMENT: version suffix of the physical name *)
 Definition next_version (v : N) : N := (v + 1) mod 65536.
+
+(* the meaning of an optional tag predicate on one tag set, and its well-formedness *)
+Definition evalq (am : N -> N -> bool) (q : option expr) (ts : tagset) : bool :=
+  match q with None => true | Some e => eval am e ts end.
+Definition okq (q : option expr) : Prop := match q with None => True | Some e => expr_ok e end.
